@@ -384,9 +384,45 @@ def case_copula(case, res):
     res.sample = w
 
 
+def case_copula_batch(case, res):
+    """Batched dependence (1-3 batch dimensions, non-symmetric values): member [i,j] uses dependence[i,j]."""
+    import jax.numpy as jnp
+    from liesel.distributions import GaussianCopula
+
+    x64 = bool(case.get("x64"))
+    ft = jnp.float64 if x64 else jnp.float32
+    rng = rng_for(case["seed"], "c18-copb", case["idx"])
+    bs = [(3,), (2, 3), (3, 2), (2, 2), (2, 3, 2)][case["idx"] % 5]
+    rho = np.round(rng.uniform(-0.9, 0.9, size=bs), 3)
+    validate = bool(case["idx"] % 2)
+    w = {"batch_shape": list(bs), "rho": rho.tolist(), "validate_args": validate, "x64": x64}
+    try:
+        d = GaussianCopula(jnp.asarray(rho, ft), validate_args=validate)
+        lo = 1e-4 if x64 else 5e-3
+        uv = rng.uniform(lo, 1 - lo, size=bs + (2,))
+        got = np.asarray(d.log_prob(jnp.asarray(uv, ft)), np.float64)
+    except Exception as exc:  # noqa: BLE001
+        res.violation("copula-batch-raises", f"batched dependence of shape {bs} raised {type(exc).__name__}: {str(exc)[:200]}", w)
+        return
+    uu = np.asarray(jnp.asarray(uv, ft), np.float64)
+    rr = np.asarray(jnp.asarray(rho, ft), np.float64)
+    exp = copula_oracle(uu[..., 0], uu[..., 1], rr)
+    res.mon("copula_density_closed_form", int(np.prod(bs)))
+    rel = 1e-8 if x64 else 3e-2
+    if got.shape != exp.shape or np.any(np.abs(got - exp) > rel * (1 + np.abs(exp))):
+        res.violation("copula-density", f"batched copula (batch shape {bs}): log_prob {np.round(got, 4).tolist()} vs closed form "
+                      f"{np.round(exp, 4).tolist()}", w)
+    if tuple(d.batch_shape) != tuple(bs):
+        res.violation("copula-batch-shape", f"batch_shape {tuple(d.batch_shape)} != {bs}", w)
+    res.nontriv(("copb", case["idx"], x64))
+    res.sample = w
+
+
 def gen_cases(tier, seed):
     q = tier == "quick"
     cases = []
+    for i in range(20 if q else 200):
+        cases.append({"kind": "copb", "idx": i, "seed": seed, "x64": bool((i // 5) % 2), "cost": 1})
     for i in range(160 if q else 3000):
         cases.append({"kind": "mvn", "idx": i, "seed": seed, "x64": bool(i % 2), "cost": 2})
     for i in range(24 if q else 300):
@@ -402,5 +438,5 @@ def gen_cases(tier, seed):
 def run_case(case):
     res = CaseResult(case)
     res.evals = 1
-    {"mvn": case_mvn, "mvns": case_mvn_sample, "bij": case_bijector, "cop": case_copula}[case["kind"]](case, res)
+    {"mvn": case_mvn, "mvns": case_mvn_sample, "bij": case_bijector, "cop": case_copula, "copb": case_copula_batch}[case["kind"]](case, res)
     return res
